@@ -1,7 +1,7 @@
 """C07 model-checking core: explicit-state BFS over histories of form conversions / canonicalisations of a real MPS.
 
 Abstract (canonical) state of the search: per-site forms + all bond dimensions + bc + whether the tensors are in
-canonical gauge / normalised.  Every transition is executed on the real MPS and compared with the dense reference
+canonical gauge / normalised + whether each virtual leg is sorted / bunched by charge.  Every transition is executed on the real MPS and compared with the dense reference
 (c07_dense): denoted state incl. phase and norm, psi.norm, and - when in canonical form - norm_test, Schmidt values,
 entropies and spectra.  Finite / segment and infinite MPS share the alphabet."""
 import copy
@@ -108,17 +108,28 @@ class Model:
 
 
 def abstract_state(psi, model):
+    """Only called after a successful observation."""
     if psi.finite:
         nrm = round(float(np.linalg.norm(D.theta(psi))), 6) == 1.0
     else:
         nrm = round(D.infinite(psi).eta, 6) == 1.0
-    return (tuple(psi.form), bond_dims(psi), psi.bc, bool(model.canon), nrm)
+    legs = tuple((leg.is_sorted(), leg.is_bunched()) for leg in (psi.get_B(i, None).get_leg('vL') for i in range(psi.L)))
+    return (tuple(psi.form), bond_dims(psi), psi.bc, bool(model.canon), nrm, legs)
 
 
 # ------------------------------------------------------------------------------------------------ observation
 
 def observe(psi, model, window=2):
-    """Compare the real MPS with the model; raises Bad."""
+    """Compare the real MPS with the model; raises Bad, returns the list of 'soft' findings (exploration goes on)."""
+    try:
+        return _observe(psi, model, window)
+    except Bad:
+        raise
+    except Exception as e:  # noqa: BLE001  (e.g. singular values whose length does not fit the tensors)
+        raise Bad('inconsistent-tensors:%s' % type(e).__name__, 'the stored tensors / singular values cannot be contracted: %r' % (e,))
+
+
+def _observe(psi, model, window):
     L = psi.L
     soft = []
     try:
@@ -190,7 +201,45 @@ def observe(psi, model, window=2):
         got = np.sort(np.exp(-0.5 * np.asarray(spec[k])))[::-1]
         if not D.same_spectrum(got[got > 1e-6], ref, 1e3 * tol):
             raise Bad('entanglement_spectrum', 'bond %d: exp(-xi/2) = %r, dense Schmidt values %r' % (b, got.tolist(), ref.tolist()))
+    if psi.bc == 'finite' and psi.chinfo.qnumber:
+        by_charge(psi, T, _call(psi, 'entanglement_spectrum', lambda: psi.entanglement_spectrum(by_charge=True)))
     return soft
+
+
+def by_charge(psi, T, spec):
+    """entanglement_spectrum(by_charge=True): per bond the Schmidt values resolved by the charge of the left part.
+    The charges of a virtual leg are only defined up to one offset per bond, which is fitted."""
+    ci = psi.chinfo
+    lq = [U.local_charges(s) for s in psi.sites]
+    for k, b in enumerate(range(1, psi.L)):
+        M = T.reshape(int(np.prod(T.shape[:b + 1])), -1)
+        rows = {}
+        for r, idx in enumerate(np.ndindex(*T.shape[1:b + 1])):
+            q = tuple([0] * ci.qnumber)
+            for i, j in enumerate(idx):
+                q = U.add_charges(ci, q, lq[i][j])
+            rows.setdefault(q, []).append(r)
+        ref = {}
+        for q, rr in rows.items():
+            sv = np.linalg.svd(M[rr], compute_uv=False) / np.linalg.norm(M)
+            if (sv > 1e-6).any():
+                ref[q] = np.sort(sv[sv > 1e-6])
+        got = {}
+        for q, xi in spec[k]:
+            sv = np.exp(-0.5 * np.asarray(xi))
+            if (sv > 1e-6).any():
+                q = tuple(int(x) for x in q)
+                got[q] = np.sort(np.concatenate([got.get(q, np.zeros(0)), sv[sv > 1e-6]]))
+        ok = False
+        for q0 in got:  # offsets that map some library charge onto the first reference charge
+            off = U.add_charges(ci, q0, sorted(ref)[0], -1)
+            shifted = {U.add_charges(ci, q, off, -1): v for q, v in got.items()}
+            if set(shifted) == set(ref) and all(len(shifted[q]) == len(ref[q]) and np.abs(shifted[q] - ref[q]).max() < 1e-7 for q in ref):
+                ok = True
+                break
+        if not ok:
+            raise Bad('entanglement_spectrum:by_charge', 'bond %d: charge resolved spectrum %r, dense (charge of the left part) %r' % (
+                b, {q: v.tolist() for q, v in got.items()}, {q: v.tolist() for q, v in ref.items()}))
 
 
 OFF_TABLE_KEY = 'form-tuple-outside-table:test_sanity-AssertionError'
@@ -237,11 +286,19 @@ def enabled(op, psi):
 
 def apply(psi, model, op):
     """Execute one operation on the real MPS and update the model.  Returns (psi, outcome); raises Bad."""
+    try:
+        return _apply(psi, model, op)
+    except Bad:
+        raise
+    except Exception as e:  # noqa: BLE001  (library calls are wrapped by run(); this is the dense contraction)
+        raise Bad('inconsistent-tensors:%s' % type(e).__name__, 'after %r the stored tensors / singular values cannot be contracted: %r' % (op, e))
+
+
+def _apply(psi, model, op):
     L = psi.L
     kind = op[0]
     noncanon = any(f is None for f in psi.form)
     model.forms = None
-    tag = kind
 
     def run(fn, expect_valueerror=False):
         try:
@@ -249,13 +306,13 @@ def apply(psi, model, op):
         except ValueError as e:
             if expect_valueerror:
                 return 'ValueError'
-            raise Bad('%s:exception:ValueError' % tag, '%r raised %r' % (op, e))
+            raise Bad('exception:ValueError', '%r raised %r' % (op, e))
         except Exception as e:  # noqa: BLE001
             if isinstance(e, AssertionError) and off_table(psi):
                 raise Bad(OFF_TABLE_KEY, '%r raised AssertionError (test_sanity) for the documented form tuple %r' % (op, off_table(psi)))
-            raise Bad('%s:exception:%s' % (tag, type(e).__name__), '%r raised %r' % (op, e))
+            raise Bad('exception:%s' % type(e).__name__, '%r raised %r' % (op, e))
         if expect_valueerror:
-            raise Bad('%s:no-ValueError-from-None-form' % tag, '%r on an MPS with a form None did not raise the documented ValueError' % (op,))
+            raise Bad('no-ValueError-from-None-form', '%r on an MPS with a form None did not raise the documented ValueError' % (op,))
         return res
 
     if kind == 'cf':
@@ -286,11 +343,11 @@ def apply(psi, model, op):
         before = clone(psi)
         c = run(psi.copy)
         if c is psi or any(a is b for a, b in zip(c._B, psi._B)):
-            raise Bad('copy:aliased', 'copy() shares tensors with the original')
+            raise Bad('aliased', 'copy() shares tensors with the original')
         # the copy is independent: changing it must not change the original
         run(lambda: c.canonical_form() if (noncanon or not psi.finite) else c.convert_form('Th'))
         if list(psi.form) != list(before.form) or any(np.abs(a.to_ndarray() - b.to_ndarray()).max() > 0 for a, b in zip(psi._B, before._B)):
-            raise Bad('copy:aliased', 'changing the copy changed the original')
+            raise Bad('aliased', 'changing the copy changed the original')
         return run(psi.copy), 'copied'
     if kind == 'gauge':
         b = op[1]
@@ -322,22 +379,21 @@ def apply(psi, model, op):
             model.norm = model.norm * n0
         if psi.bc == 'segment':
             if ret is None or len(ret) != 2:
-                raise Bad('canon:segment-no-U_L-V_R', 'canonical_form of a segment MPS returned %r' % (ret,))
+                raise Bad('segment-no-U_L-V_R', 'canonical_form of a segment MPS returned %r' % (ret,))
             UL, VR = [x.to_ndarray() for x in (ret[0].itranspose(['vL', 'vR']), ret[1].itranspose(['vL', 'vR']))]
             new = psi.norm * D.theta(psi)
             back = np.tensordot(np.tensordot(UL, new, axes=[[1], [0]]), VR, axes=[[-1], [0]])
             if back.shape != model.ref.shape or np.abs(back - model.ref).max() > TOL * max(1.0, np.abs(model.ref).max()):
-                raise Bad('canon:segment-state-changed', 'U_L theta_new V_R differs from the old theta (returned unitaries do not relate old and new Schmidt states)')
+                raise Bad('segment-state-changed', 'U_L theta_new V_R differs from the old theta (returned unitaries do not relate old and new Schmidt states)')
             model.ref = new
             UL, VR = [x.to_ndarray() for x in (psi.segment_boundaries[0].itranspose(['vL', 'vR']), psi.segment_boundaries[1].itranspose(['vL', 'vR']))]
             back = np.tensordot(np.tensordot(UL, new, axes=[[1], [0]]), VR, axes=[[-1], [0]])
             if back.shape != model.src.shape or np.abs(back - model.src).max() > TOL * max(1.0, np.abs(model.src).max()):
-                raise Bad('canon:segment_boundaries', 'psi.segment_boundaries do not relate the current theta to the one of the original segment')
+                raise Bad('segment_boundaries', 'psi.segment_boundaries do not relate the current theta to the one of the original segment')
         elif ret is not None:
-            raise Bad('canon:returns', 'canonical_form of a finite MPS returned %r' % (ret,))
+            raise Bad('returns', 'canonical_form of a finite MPS returned %r' % (ret,))
     else:
         eta0 = D.infinite(psi).eta
-        tag = kind
         meth = psi.canonical_form_infinite1 if kind == 'canon1' else psi.canonical_form_infinite2
         with warnings.catch_warnings():
             warnings.simplefilter('ignore')
@@ -365,11 +421,13 @@ def build_seed(seed):
         v = U.generic_vector(sites, sector, seed['seed'], seed['cplx'])
         psi = MPS.from_full(sites, U.to_npc(v, sites), form=None, normalize=False, unit_cell_width=L)
         return psi, Model(psi, v[None, ..., None], True)
-    if kind == 'segment':    # canonical segment from from_full with outer_S
-        th, legs, outer = segment_theta(sites, seed['seed'], seed['cplx'])
+    if kind in ('segment', 'segment_raw'):
+        # from_full with outer_S: a canonical segment, or ('segment_raw') one whose outer Schmidt states / values are
+        # not yet those of theta, so that canonical_form has to find U_L, V_R and new outer singular values
+        th, legs, outer = segment_theta(sites, seed['seed'], seed['cplx'], fix=(kind == 'segment'))
         a = U.to_npc(th, sites, extra=[('vL', legs[0], 0), ('vR', legs[1], -1)])
         psi = MPS.from_full(sites, a, form=None, normalize=False, bc='segment', outer_S=outer, unit_cell_width=L)
-        return psi, Model(psi, th, True)
+        return psi, Model(psi, th, kind == 'segment')
     # raw: non-canonical generic tensors, form None
     infinite = bc == 'infinite'
     sector = None if infinite else U.big_sectors(sites, 1)[0]
@@ -386,9 +444,10 @@ def build_seed(seed):
     return psi, Model(psi, psi.norm * U.contract(Bs), False)
 
 
-def segment_theta(sites, seed, cplx):
-    """Generic normalised theta [vL, p0.., vR] with charge-symmetric outer legs whose reduced density matrices on vL
-    and vR are diagonal, the outer LegCharges and the outer singular values (so that it is a canonical segment)."""
+def segment_theta(sites, seed, cplx, fix=True):
+    """Generic normalised theta [vL, p0.., vR] with charge-symmetric outer legs, the outer LegCharges and outer
+    singular values.  fix=True: the reduced density matrices on vL and vR are diagonal with the returned singular
+    values (a canonical segment); fix=False: generic theta and arbitrary positive outer values."""
     import tenpy.linalg.np_conserved as npc
     ci = sites[0].leg.chinfo
     rng = np.random.default_rng([seed, 13, len(sites)])
@@ -406,7 +465,7 @@ def segment_theta(sites, seed, cplx):
         for idx in tot[q]:
             th[idx + (c,)] = U.values(rng, (), cplx)
 
-    def fix(M, charges):  # rows of equal charge -> s * Vh
+    def gauge(M, charges):  # rows of equal charge -> s * Vh
         for q in set(charges):
             rows = [k for k, x in enumerate(charges) if x == q]
             _, s, Vh = np.linalg.svd(M[rows], full_matrices=False)
@@ -414,11 +473,14 @@ def segment_theta(sites, seed, cplx):
         return M
 
     sh = th.shape
-    th = fix(th.reshape(sh[0], -1), qL).reshape(sh)
-    th = fix(th.reshape(-1, sh[-1]).T.copy(), qR).T.reshape(sh)
+    if fix:
+        th = gauge(th.reshape(sh[0], -1), qL).reshape(sh)
+        th = gauge(th.reshape(-1, sh[-1]).T.copy(), qR).T.reshape(sh)
     th = th / np.linalg.norm(th)
     SL = np.linalg.norm(th.reshape(sh[0], -1), axis=1)
     SR = np.linalg.norm(th.reshape(-1, sh[-1]), axis=0)
+    if not fix:
+        SL, SR = [(1.0 + np.arange(len(x))) / np.linalg.norm(1.0 + np.arange(len(x))) for x in (SL, SR)]
     legs = (npc.LegCharge.from_qflat(ci, [list(q) for q in qL], qconj=+1).bunch()[1],
             npc.LegCharge.from_qflat(ci, [list(q) for q in qR], qconj=-1).bunch()[1])
     return th, legs, (SL, SR)
@@ -430,27 +492,38 @@ def replay_history(seed, ops):
     """Run one history from the seed, observing after every step.  Raises Bad."""
     psi, model = build_seed(seed)
     window = seed.get('window', 2)
-    soft = observe(psi, model, window)
-    outcome = 'seed'
-    for op in ops:
-        if outcome == 'ValueError':
-            break
-        psi, outcome = apply(psi, model, op)
-        if outcome != 'ValueError':
-            soft = soft + observe(psi, model, window)
-    if soft:
-        raise soft[0]
+    step = 'seed'
+    try:
+        soft = observe(psi, model, window)
+        outcome = 'seed'
+        for op in ops:
+            if outcome == 'ValueError':
+                break
+            step = op[0]
+            psi, outcome = apply(psi, model, op)
+            if outcome != 'ValueError':
+                soft = soft + observe(psi, model, window)
+        if soft:
+            raise soft[0]
+    except Bad as e:
+        raise Bad(history_key(seed['bc'], step, e), e.what)
     return psi, model, outcome
 
 
-def bfs(seed, depth, tier):
+def history_key(bc, step, e):
+    return e.key if e.key == OFF_TABLE_KEY else 'history:%s:%s:%s' % (bc, step, e.key)
+
+
+def bfs(seed, depth, tier, merge=True):
+    """Breadth-first search from the seed.  merge=True: a history is only extended if it reached a new abstract state
+    (search to the fixed point if `depth` allows: `closed`); merge=False: every history up to `depth` is executed."""
     viol, outcomes = [], set()
     case0 = dict(part='H', seed=seed, ops=[])
     try:
         psi, model, _ = replay_history(seed, [])
     except Bad as e:
         return dict(evaluations=1, states=1, transitions=0, traces=1, outcomes=['seed-fails'],
-                    violations=[dict(key='history:seed:' + e.key, what='seed %r: %s' % (seed, e.what), case=case0)])
+                    violations=[dict(key=e.key, what='seed %r: %s' % (seed, e.what), case=case0)])
     ops = alphabet(seed['L'], psi.finite, tier)
     window = seed.get('window', 2)
     seen = {abstract_state(psi, model)}
@@ -475,7 +548,7 @@ def bfs(seed, depth, tier):
                     soft = [e]
                     outcome = None
                 for e in soft:
-                    key = e.key if e.key == OFF_TABLE_KEY else 'history:%s:%s:%s%s' % (snap.bc, op[0], e.key, ':unbunched-virtual-legs' if seed.get('unbunched') else '')
+                    key = history_key(snap.bc, op[0], e)
                     if key not in [v['key'] for v in viol]:
                         viol.append(dict(key=key, what='seed %r, history %r: %s' % (seed, h, e.what), case=dict(part='H', seed=seed, ops=h)))
                 if outcome is None:
@@ -485,10 +558,11 @@ def bfs(seed, depth, tier):
                     continue
                 st = abstract_state(psi, model)
                 sample = h
-                if st not in seen:
+                if st not in seen or not merge:
                     seen.add(st)
                     new.append((h, clone(psi), model.copy()))
         frontier = new
     return dict(evaluations=transitions + 1, states=len(seen), transitions=transitions, traces=transitions + 1, outcomes=sorted(outcomes),
                 violations=viol[:15], keys=['H:%r:%r' % (sorted(seed.items()), s) for s in seen],
-                samples=[dict(part='H', seed=seed, history=sample)] if sample else [])
+                extra=dict(bfs_closed=int(merge and not frontier), bfs_searches=1),
+                samples=[dict(part='H', seed=seed, history=sample, merge=merge)] if sample else [])
